@@ -62,7 +62,7 @@ def direct_calls(M, rec, rng, reps):
         smode = rng.choice(("np0d", "npf", "np1")) if side == "numpy" else "dm"
         s = lambda x: shp(x, smode)  # noqa: E731
         p = link_pars(rng)
-        T = rng.choice((T0, 5 / 3600, 15 / 3600))
+        T = rng.choice((T0, T0, 5 / 3600, 15 / 3600, 1.5))
         N = rng.choice((1, 1, 2, 3, 5))
         rho = [rho_val(rng, p) for _ in range(N)]
         v = [v_val(rng, p) for _ in range(N)]
